@@ -195,3 +195,39 @@ func ruleStateTable(field string, names map[int64]string, table []stateWrite) fu
 		}
 	}
 }
+
+
+// ownedByOutside is ownedBy for a member of a recursive cluster: callers
+// inside the cluster are ignored, every caller outside must be attributable.
+func (p *Prog) ownedByOutside(fn *ssa.Function, cluster []*ssa.Function, allowed func(string) bool) (string, bool) {
+	in := map[*ssa.Function]bool{}
+	for _, f := range cluster {
+		in[f] = true
+	}
+	n := p.CG.Nodes[TopLevel(fn)]
+	if n == nil {
+		return "", false
+	}
+	owner := ""
+	cnt := 0
+	for _, e := range n.In {
+		if e.Caller.Func == nil || e.Site == nil || e.Site.Common().StaticCallee() != TopLevel(fn) {
+			continue
+		}
+		cf := TopLevel(e.Caller.Func)
+		if in[cf] {
+			continue
+		}
+		cnt++
+		if allowed(fnName(cf)) {
+			owner = fnName(cf)
+			continue
+		}
+		o, ok := p.ownedBy(cf, allowed)
+		if !ok {
+			return "", false
+		}
+		owner = o
+	}
+	return owner, cnt > 0 || len(cluster) > 1
+}
